@@ -291,6 +291,93 @@ func runMetricsHistory(c *hx.Ctx) {
 	}
 }
 
+// ---- layout heuristics must break ties the same way every time --------------------
+
+// runLayoutTies: pages on which the "most common" left margin, font size and alignment are
+// tied between two candidates (so a vote counted in a Go map has no unique winner) are
+// extracted repeatedly; every public rendering must be byte-identical each time.
+func runLayoutTies(c *hx.Ctx, idx int) {
+	r := hx.NewRng(c.Seed ^ 0x71e5).Fork(uint64(idx))
+	var body strings.Builder
+	body.WriteString("BT\n")
+	y := 740
+	groups := r.Range(2, 4)
+	perGroup := r.Range(1, 3)
+	xs := []int{72, 90, 108, 126, 300}
+	sizes := []int{10, 12, 14, 18}
+	hx.Shuffle(r, xs)
+	hx.Shuffle(r, sizes)
+	n := 0
+	for g := 0; g < groups; g++ {
+		for l := 0; l < perGroup; l++ {
+			n++
+			fmt.Fprintf(&body, "/F1 %d Tf 1 0 0 1 %d %d Tm (Tie%dx%d words on line %d of group %d here) Tj\n", sizes[g%len(sizes)], xs[g%len(xs)], y, idx, n, l+1, g+1)
+			y -= 20
+			if l == perGroup-1 {
+				y -= 24
+			}
+		}
+	}
+	body.WriteString("ET")
+	path := filepath.Join(c.OutDir, fmt.Sprintf("c03-ties-%d.pdf", idx))
+	os.WriteFile(path, metricsPDF("Helvetica", "Type1", "", body.String()), 0o644)
+	defer os.Remove(path)
+	k := map[string]interface{}{"ties": idx, "seed": c.Seed}
+	seen := map[string]map[string]int{}
+	add := func(op, v string) {
+		if seen[op] == nil {
+			seen[op] = map[string]int{}
+		}
+		seen[op][v]++
+	}
+	c.Guard("C03/ties", k, 60, func() {
+		for rep := 0; rep < 40; rep++ {
+			t, _, _ := tabula.Open(path).Text()
+			add("Text", t)
+			j, _, _ := tabula.Open(path).JoinParagraphs().Text()
+			add("JoinParagraphs.Text", j)
+			m, _, _ := tabula.Open(path).ToMarkdown()
+			add("ToMarkdown", m)
+			ps, _ := tabula.Open(path).Paragraphs()
+			var sb strings.Builder
+			for _, p := range ps {
+				fmt.Fprintf(&sb, "[%d|%v|%s]", len(p.Lines), p.Style, p.Text)
+			}
+			add("Paragraphs", sb.String())
+			hs, _ := tabula.Open(path).Headings()
+			sb.Reset()
+			for _, h := range hs {
+				fmt.Fprintf(&sb, "[%d|%s]", h.Level, h.Text)
+			}
+			add("Headings", sb.String())
+			ch, _, err := tabula.Open(path).Chunks()
+			if err == nil && ch != nil {
+				js, _ := ch.ToJSONL()
+				add("Chunks.ToJSONL", js)
+			}
+		}
+	})
+	for op, vs := range seen {
+		c.Check("C03/repeat-differs", len(vs) == 1, k, func() string {
+			var ex []string
+			for v, cnt := range vs {
+				ex = append(ex, fmt.Sprintf("%dx %q", cnt, truncate(v, 160)))
+			}
+			sort.Strings(ex)
+			return fmt.Sprintf("40 runs of %s on the same page (%d groups of %d lines, tied margins/sizes) gave %d different results: %s", op, groups, perGroup, len(vs), strings.Join(ex, " | "))
+		})
+	}
+	c.Count("layout-ties")
+	c.Case(fmt.Sprint("ties", idx), true)
+}
+
+func truncate(s string, n int) string {
+	if len(s) > n {
+		return s[:n] + "…"
+	}
+	return s
+}
+
 // ---- whole extractions: repeat, history, goroutines ---------------------------------
 
 type docCase struct {
@@ -419,6 +506,9 @@ func Run(c *hx.Ctx) {
 	}
 	for i := 0; i < c.N(25, 400); i++ {
 		runDocs(c, i)
+	}
+	for i := 0; i < c.N(12, 150); i++ {
+		runLayoutTies(c, i)
 	}
 }
 
